@@ -233,7 +233,67 @@ type context struct {
 	build func(n ap.Item) ap.Item
 }
 
+// systematic contexts: the nil kind planted into every Item-typed and ItemCollection-typed field of every
+// struct, directly, as the sole member of a list, and as one member of a longer list.
+func c20FieldContexts() []context {
+	var out []context
+	for _, t := range allGoTypes {
+		t := t
+		rt := goTypes[t]
+		for i := 0; i < rt.NumField(); i++ {
+			f := rt.Field(i)
+			kind := kindOfType(f.Type)
+			if kind != "item" && kind != "items" {
+				continue
+			}
+			name := f.Name
+			mk := func(shape string) func(n ap.Item) ap.Item {
+				return func(n ap.Item) ap.Item {
+					pv := reflect.New(rt)
+					sv := pv.Elem()
+					sv.FieldByName("ID").SetString("https://example.com/" + t)
+					sv.FieldByName("Type").SetString(vocab[t][len(vocab[t])-1])
+					var val ap.Item
+					switch shape {
+					case "direct":
+						val = n
+					case "sole":
+						val = ap.ItemCollection{n}
+					default:
+						val = ap.ItemCollection{ap.IRI("https://example.com/a"), n, &ap.Object{ID: "https://example.com/b"}}
+					}
+					fv := sv.FieldByName(name)
+					if kind == "items" {
+						if col, ok := val.(ap.ItemCollection); ok {
+							fv.Set(reflect.ValueOf(col))
+						} else {
+							fv.Set(reflect.ValueOf(ap.ItemCollection{n}))
+						}
+					} else if val != nil {
+						fv.Set(reflect.ValueOf(val))
+					}
+					return pv.Interface().(ap.Item)
+				}
+			}
+			shapes := []string{"direct", "sole", "member"}
+			if kind == "items" {
+				shapes = []string{"sole", "member"}
+			}
+			for _, sh := range shapes {
+				out = append(out, context{t + "." + name + "/" + sh, mk(sh)})
+			}
+		}
+	}
+	return out
+}
+
+var c20NestedKinds = []string{"nil", "*Object", "*Link", "*Actor", "*Activity", "*OrderedCollection", "ItemCollection(nil)", "*ItemCollection(nil)"}
+
 func c20Contexts() []context {
+	return append(c20FieldContexts(), c20HandContexts()...)
+}
+
+func c20HandContexts() []context {
 	return []context{
 		{"Object.Attachment", func(n ap.Item) ap.Item { return &ap.Object{ID: "https://example.com/o", Type: ap.NoteType, Attachment: n} }},
 		{"Object.To[1]", func(n ap.Item) ap.Item {
@@ -367,7 +427,7 @@ func init() {
 	campaigns["C20"] = func(c *Ctx) {
 		hs := c20Helpers()
 		ks := nilKinds()
-		c.Rule = fmt.Sprintf("exhaustive matrix: %d exported helpers x %d nil kinds (untyped nil, nil pointers to the 14 struct types, nil ItemCollection / *ItemCollection / IRIs) at top level, and %d contexts (the nil kind planted as a property or list member of an otherwise valid value) x %d operations x %d nil kinds. A cell is non-trivial when the nil is typed. Outcome classes: panic / neutral result / callback argument.", len(hs), len(ks), len(c20Contexts()), len(c20CtxOps()), len(ks))
+		c.Rule = fmt.Sprintf("exhaustive matrix: %d exported helpers x %d nil kinds (untyped nil, nil pointers to the 14 struct types, nil ItemCollection / *ItemCollection / IRIs) at top level, and %d contexts (the nil kind planted into every Item / ItemCollection field of every struct - directly, as the sole member of a list, inside a longer list - plus hand-written ones) x %d operations x up to %d nil kinds. A cell is non-trivial when the nil is typed. Outcome classes: panic / neutral result / callback argument.", len(hs), len(ks), len(c20Contexts()), len(c20CtxOps()), len(ks))
 		panics := map[string][]string{}
 		for _, h := range hs {
 			for _, k := range ks {
@@ -388,7 +448,11 @@ func init() {
 		}
 		for _, cx := range c20Contexts() {
 			for _, op := range c20CtxOps() {
-				for _, k := range ks {
+				kinds := ks
+				if strings.Contains(cx.name, "/") {
+					kinds = c20NestedKinds // the systematic per-field contexts use a representative subset of nil kinds
+				}
+				for _, k := range kinds {
 					cell := c20Cell{Helper: op.name, NilKind: k, Context: cx.name}
 					out, viol := c20RunCell(cell)
 					in := map[string]interface{}{"op": "nilcell", "helper": op.name, "nil": k, "context": cx.name}
